@@ -301,7 +301,8 @@ def _spawn(cases, hashseed, rand_seed, garbage, optimize=False, ascii_locale=Fal
     # some interpreters run optimised (-O: no asserts, __debug__ False): nothing in the result may depend on it
     cmd = [sys.executable] + (["-O"] if optimize else []) + [os.path.join(VERIF, "dsim", "main.py"), "C19", "--child"]
     p = subprocess.run(cmd, input=json.dumps({"cases": cases, "rand_seed": rand_seed, "garbage": garbage}),
-                       env=env, capture_output=True, text=True, timeout=1200)
+                       env=env, capture_output=True, text=True, timeout=1200,
+                       cwd="/")     # one fixed working directory: relative IRIs resolve the same in every run and replay
     line = [l for l in p.stdout.splitlines() if l.startswith("CHILD ")]
     if p.returncode != 0 or not line:
         raise RuntimeError("C19 child failed (hashseed %s): %s" % (hashseed, p.stderr[-600:]))
